@@ -84,3 +84,60 @@ def Val.scalarCountKvs : List (String × Val) → Nat
 end
 
 end Ytk
+
+namespace Ytk
+
+/-- A decoded value that may contain maps with arbitrary scalar keys (yaml.v3 yields
+    `map[interface{}]interface{}` for mappings with non-string keys). -/
+inductive IVal where
+  | sc  (v : Scalar)
+  | arr (xs : List IVal)
+  | obj (kvs : List (Scalar × IVal))
+  deriving Repr, Inhabited
+
+mutual
+/-- toStringMap / toSlice of dom/codec.go: every key becomes `fmt.Sprint(key)`; the map is filled
+    entry by entry (a later entry with the same text overwrites an earlier one) -/
+def IVal.toVal : IVal → Val
+  | .sc v => .sc v
+  | .arr xs => .arr (IVal.toValList xs)
+  | .obj kvs => .obj (AMap.ofList (IVal.toValKvs kvs))
+def IVal.toValList : List IVal → List Val
+  | [] => []
+  | x :: xs => IVal.toVal x :: IVal.toValList xs
+def IVal.toValKvs : List (Scalar × IVal) → List (String × Val)
+  | [] => []
+  | (k, x) :: xs => (k.text, IVal.toVal x) :: IVal.toValKvs xs
+end
+
+/-- FromMap / FromReader on such a value -/
+def decodeI (v : IVal) : Node := decodeNode (IVal.toVal v)
+
+mutual
+def IVal.scalarCount : IVal → Nat
+  | .sc _ => 1
+  | .arr xs => IVal.scalarCountList xs
+  | .obj kvs => IVal.scalarCountKvs kvs
+def IVal.scalarCountList : List IVal → Nat
+  | [] => 0
+  | x :: xs => IVal.scalarCount x + IVal.scalarCountList xs
+def IVal.scalarCountKvs : List (Scalar × IVal) → Nat
+  | [] => 0
+  | (_, x) :: xs => IVal.scalarCount x + IVal.scalarCountKvs xs
+end
+
+mutual
+/-- within every map the stringified keys are pairwise distinct and none ends in an index group -/
+def IVal.keysOk : IVal → Bool
+  | .sc _ => true
+  | .arr xs => IVal.keysOkList xs
+  | .obj kvs => IVal.keysOkKvs kvs []
+def IVal.keysOkList : List IVal → Bool
+  | [] => true
+  | x :: xs => IVal.keysOk x && IVal.keysOkList xs
+def IVal.keysOkKvs : List (Scalar × IVal) → List String → Bool
+  | [], _ => true
+  | (k, x) :: xs, seen => !seen.contains k.text && !hasIdxSuffix k.text && IVal.keysOk x && IVal.keysOkKvs xs (k.text :: seen)
+end
+
+end Ytk
